@@ -101,6 +101,36 @@ def check_record(rec):
                     continue
                 if len(got) != 1 or len(got[0]) != len(b['at']) or not all(fm94.impl_matches(g, ents[p - 1][1]) for g, p in zip(got[0], b['at'])):
                     out.append((('query', 'bare-id', 'differs', how), 'bare id %s in subset %d: %r, flat positions %r' % (b['id'], s, got, b['at']), b['id']))
+        # the same path over ALL subsets at once (no selector) and over the subsets in reverse order: one result per
+        # subset, each the specification's evaluation of the path on THAT subset's tree
+        if beh['nsub'] >= 2:
+            seen = set()
+            for ti, qs in enumerate(rec['queries']):
+                for q in qs:
+                    ps = tree.path_str(q['path'])
+                    if ps in seen:
+                        continue
+                    seen.add(ps)
+                    per = q['every'] if not beh['cmp'] else [q['result']] * beh['nsub']
+                    if any(tree.has_error(r) for r in per):
+                        continue
+                    for prefix, order in (('', list(range(beh['nsub']))), ('@[::-1]', list(range(beh['nsub'] - 1, -1, -1)))):
+                        expr = prefix + ps
+                        nq += 1
+                        try:
+                            qr = querent.query(msg, expr)
+                            got, idxs = qr.all_values(), list(qr.subset_indices())
+                        except Exception as e:
+                            out.append((('query', 'all-subsets', 'exception:' + type(e).__name__, how), '%s raised %r' % (expr, e), expr))
+                            continue
+                        ok = idxs == order and len(got) == len(order) and all(
+                            same_nested(got[k], tree.untoken(per[s2]), subs[s2]) for k, s2 in enumerate(order))
+                        if not ok:
+                            steps = ''.join(c['sep'] for c in q['path'])
+                            out.append((('query', 'all-subsets', 'differs', '%s|%s' % (how, 'attr' if '.' in steps else 'child')),
+                                        '%s on %r: %r for subsets %r, specification positions %r' % (expr, beh['ids'], got, idxs, [tree.untoken(per[s2]) for s2 in order]), expr))
+                        if len(out) > 5:
+                            return out, nq
         # subset selectors
         if how == 'interpreted' and beh['nsub'] >= 2 and subs[0]:
             lab = subs[0][0][0] if subs[0][0][0].isdigit() else None
@@ -134,13 +164,18 @@ def run(run):
         r = seed() % 5
         sl = tree.SLICES if thorough else [tree.SLICES[i] for i in sorted({1, 6, (0, 2, 3, 4, 5, 7)[seed() % 6]})]
         plain = [t for t in cat['plain'] if any(100000 <= d < 200000 or d >= 300000 for d in t) or 204000 < t[0] < 205000]
-        plan = [('struct', cat['struct'], dict(subset_counts=(1, 2), fmax=2, seeds=(r,))),
-                ('bitmap', cat['bitmap'], dict(subset_counts=(1, 2) if thorough else (1,), fmax=2, seeds=((r + 1) % 5,))),
+        ndel = lambda t: sum(1 for d in t if 100000 <= d < 200000 and d % 1000 == 0)
+        light = [t for t in cat['struct'] if ndel(t) <= 1]
+        heavy = [t for t in cat['struct'] if ndel(t) > 1]
+        plan = [('struct', light if not thorough else cat['struct'], dict(subset_counts=(1, 2), fmax=2, seeds=(r,))),
+                ('bitmap', cat['bitmap'], dict(subset_counts=(1, 2) if thorough else (2,), fmax=2, seeds=((r + 1) % 5,))),
                 ('plain', plain, dict(subset_counts=(2,), seeds=((r + 2) % 5,))),
                 ('repeats', REPEATS, dict(subset_counts=(1, 2), fmax=2, seeds=((r + 3) % 5,)))]
+        if not thorough:
+            plan.append(('struct nested', heavy, dict(subset_counts=(1,), fmax=1, seeds=((r + 4) % 5,))))
         total_q = 0
         for label, templates, kw in plan:
-            res = tree.gen_run(wd, 'MC_c16_' + label, templates, slices=sl, path_depth=6 if thorough else 4, **kw)
+            res = tree.gen_run(wd, 'MC_c16_' + label.replace(' ', '_'), templates, slices=sl, path_depth=6 if thorough else 4, **kw)
             if res.violated:
                 run.violation(('spec', res.violated, label), 'specification property %s violated' % res.violated, tlc.error_trace(res))
             run.add_tlc(res, 'FM94Tree (paths and their evaluation) ' + label)
